@@ -449,5 +449,13 @@ impl CssDestination for AtMediaDest<'_> {
 }
 
 fn is_flat_rule(name: &str) -> bool {
-    name == "font-face" || name == "keyframes"
+    name == "font-face" || is_keyframes(name)
+}
+
+/// True for `keyframes`, also with a vendor prefix.
+pub(crate) fn is_keyframes(name: &str) -> bool {
+    name.strip_prefix('-')
+        .and_then(|n| n.split_once('-'))
+        .map_or(name, |(_vendor, name)| name)
+        == "keyframes"
 }
